@@ -10,6 +10,7 @@ import GocoinV.Proofs.C15Segwit
 import GocoinV.Proofs.C15SegwitInv
 import GocoinV.Proofs.C15Fits
 import GocoinV.Proofs.C15Addr
+import GocoinV.Proofs.C15Case
 namespace GocoinV.Props.C15
 open GocoinV Bech32
 
@@ -178,7 +179,7 @@ example : (segwitDecode [98, 99] [66, 67, 49, 81, 87, 53, 48, 56, 68, 54, 81, 69
 
 /-- `Encodeb58` never writes outside its buffer: the Go code allocates len(a)*138/100+1 bytes and fills
     them from the end; the encoding of EVERY byte string fits (256^100 < 58^138, plus the 100 residues). -/
-theorem b58_encode_fits (a : Bytes) : (Base58.encode a).length ≤ a.length * 138 / 100 + 1 :=
+theorem encode_fits (a : Bytes) : (Base58.encode a).length ≤ a.length * 138 / 100 + 1 :=
   Base58.encode_length_le a
 
 /-- Address level, script → address → script, for the five supported destination forms (`Addr.Supported`:
@@ -207,7 +208,10 @@ theorem addr_string_roundtrip (H : Addr.Hashes) (hH : ∀ x, (H.sha2sum x).lengt
     ∃ s a', Addr.toString H a = some s ∧ Addr.fromString H s = .ok a' ∧ Addr.outScript a' = Addr.outScript a :=
   Addr.string_roundtrip H hH a hs hf
 
-/-- non-vacuity: a P2SH address without cached string is supported and fresh -/
+/-- non-vacuity: a hash slot returning 32 bytes exists; a P2SH address without cached string is supported and fresh -/
+example : ∃ H : Addr.Hashes, ∀ x, (H.sha2sum x).length = 32 :=
+  ⟨⟨fun _ => List.replicate 32 0, fun _ => []⟩, fun _ => by simp⟩
+
 example : Addr.Supported (.b58 5 (List.replicate 20 9) none) ∧ Addr.Fresh (.b58 5 (List.replicate 20 9) none) :=
   ⟨⟨by simp, by simp⟩, rfl⟩
 
@@ -237,5 +241,35 @@ theorem addr_segwit_string_roundtrip (H : Addr.Hashes) (hrp prog s : Bytes) (v :
 /-- non-vacuity: such a string exists for a v0 20-byte program on "tb" (H is irrelevant for segwit) -/
 example (H : Addr.Hashes) : (Addr.toString H (.segwit [116, 98] 0 (List.replicate 20 1))).isSome = true := by
   simp only [Addr.toString]; decide +kernel
+
+/-- Mixed case is refused: a string that contains both an ASCII lower-case and an ASCII upper-case letter
+    (anywhere: human-readable part or data part) is never accepted by `bech32.Decode`, hence never by
+    `SegwitDecode` / `NewAddrFromString` on the segwit path. -/
+theorem bech32_mixed_case_refused (s : Bytes) (hmix : s.any isLower = true ∧ s.any isUpper = true) :
+    Bech32.decode s = none := by
+  cases h : Bech32.decode s with
+  | none => rfl
+  | some r => exact absurd hmix (Bech32.decode_not_mixed s r h)
+
+/-- non-vacuity: "bc1Q…" style input — one lower-case and one upper-case letter -/
+example : ([98, 99, 49, 81] : Bytes).any isLower = true ∧ ([98, 99, 49, 81] : Bytes).any isUpper = true := by
+  decide
+
+/-
+  -- OPEN: error DETECTION as a distance property ("any string obtained from a valid address by up to 4
+  --   character substitutions is refused") is NOT proved: it needs the minimum distance of the BCH code
+  --   behind the generated polymod step. What is proved instead is uniqueness: by `segwit_encode_decode`
+  --   an accepted string is, up to case, THE encoding of what it decodes to, so a corrupted string can only
+  --   be accepted as a different (version, program), never silently as the original one; the ≤4-edit
+  --   neighbourhood of valid addresses is covered by the correspondence run against the BIP173/350
+  --   reference (mutation stream), not by a theorem.
+  -- OPEN: private-key WIF strings (lib/btc/wallet.go DecodePrivateAddr / PrivateAddr.String) are not
+  --   modelled; only their Base58 layer (`b58_decode_encode`, `encode_fits`) is covered.
+  -- OPEN: `addr_string_roundtrip` for a Base58 address that carries a cached string (`Enc58str`, i.e. an
+  --   address that itself came from NewAddrFromString) is the identity on the string by definition of
+  --   `String()`; the decode→encode direction "String() of the parsed address = the typed string" for
+  --   Base58 is therefore trivial in the model and is checked on the real code by the harness
+  --   (addr-reencode), for segwit it is `segwit_encode_decode`.
+-/
 
 end GocoinV.Props.C15
